@@ -39,3 +39,23 @@ func runSmoke(c *vk.Ctx) {
 	fmt.Println("height", ch.Height, "bal", ch.Bal(ch.Accs[1].Addr, "bar"))
 	c.Eval(1)
 }
+
+func runSmokeTx(c *vk.Ctx) {
+	ch := chain.New(chain.Options{Denoms: []string{"foo", "bar"}})
+	defer ch.Close()
+	a := ch.Accs[0]
+	msg := balancer.NewMsgCreateBalancerPool(a.Addr, balancer.NewPoolParams(osmomath.MustNewDecFromStr("0.003"), osmomath.ZeroDec(), nil),
+		[]balancer.PoolAsset{{Weight: sdkmath.NewInt(1), Token: sdk.NewCoin("foo", sdkmath.NewInt(5000000))}, {Weight: sdkmath.NewInt(1), Token: sdk.NewCoin("bar", sdkmath.NewInt(5000000))}}, "")
+	tx1 := ch.Tx(a, &msg)
+	sw := &poolmanagertypes.MsgSwapExactAmountIn{Sender: ch.Accs[1].Addr.String(), Routes: []poolmanagertypes.SwapAmountInRoute{{PoolId: 1, TokenOutDenom: "bar"}}, TokenIn: sdk.NewCoin("foo", sdkmath.NewInt(1000)), TokenOutMinAmount: sdkmath.OneInt()}
+	tx2 := ch.Tx(ch.Accs[1], sw)
+	sw2 := &poolmanagertypes.MsgSwapExactAmountIn{Sender: ch.Accs[1].Addr.String(), Routes: []poolmanagertypes.SwapAmountInRoute{{PoolId: 1, TokenOutDenom: "bar"}}, TokenIn: sdk.NewCoin("foo", sdkmath.NewInt(1000)), TokenOutMinAmount: sdkmath.NewInt(100000)}
+	tx3 := ch.Tx(ch.Accs[1], sw2)
+	t0 := time.Now()
+	res := ch.NextBlock(5*time.Second, tx1, tx2, tx3)
+	for i, r := range res.TxResults {
+		fmt.Println(i, chain.ResultString(r), len(r.Events))
+	}
+	fmt.Println("block with 3 txs in", time.Since(t0), "apphash", fmt.Sprintf("%X", res.AppHash)[:16])
+	c.Eval(1)
+}
